@@ -351,3 +351,12 @@ _run_g0 = run
 def run(ctx, rep, tier):
     _run_g0(ctx, rep, tier)
     _call_site_scope(ctx, rep, tier)
+
+
+_run_i13 = run
+
+
+def run(ctx, rep, tier):
+    _run_i13(ctx, rep, tier)
+    from .shared import delegate
+    delegate(ctx, rep, tier, "C15", ("C15.p",), "C13.i", "the body of a macro means the same at every call and an argument at every use: parsing never modifies the parse tree it reads")
